@@ -316,6 +316,14 @@ func reportFindings(fs []finding) (msgs []string, first *finding) {
 			ev.KnownFinding(f.sig, f.msg)
 			continue
 		}
+		if p := os.Getenv("C16_SURVEY"); p != "" {
+			// exploration aid: collect instead of failing
+			if fh, err := os.OpenFile(p, os.O_APPEND|os.O_CREATE|os.O_WRONLY, 0o644); err == nil {
+				fmt.Fprintf(fh, "=====[%s]\n%s\n", f.sig, f.msg)
+				fh.Close()
+			}
+			continue
+		}
 		msgs = append(msgs, "["+f.sig+"] "+f.msg)
 		if first == nil {
 			first = f
